@@ -465,7 +465,7 @@ def exh_seq(ctx):
     return _emit(d)
 
 
-@rule("CONTAINS-CAPTURING", ["C03", "C05", "C19"], floor=6)
+@rule("CONTAINS-CAPTURING", ["C03", "C05", "C19", "C04"], floor=6)
 def contains_capturing(ctx):
     """contains_capturing_expressions of every composite operation = some child is a Capture or itself contains
     capturing expressions (sibling agreement); leaves answer false (default)."""
@@ -817,7 +817,7 @@ def capture_writers(ctx):
 # ------------------------------------------------------------------ repetition iterators
 
 
-@rule("ORDER-GREEDY", ["C02", "C01", "C20", "C08", "C11"], floor=6)
+@rule("ORDER-GREEDY", ["C02", "C01", "C20", "C08", "C11", "C03"], floor=6)
 def order_greedy(ctx):
     """GreedyFixed: at most max body matches are taken from position, stepping by len; fewer than min -> nothing;
     otherwise positions are yielded from the furthest down to position+len*min in steps of len. IntStepIterator
@@ -917,7 +917,8 @@ def order_greedy(ctx):
     for o in out:
         # UnambiguousRepeat exists only as the product of an optimisation (C08), and what it takes per iteration is
         # what its operand matches - with the operand's own notion of equality under flag i (C11)
-        o.props = ["C02", "C01", "C20", "C08", "C11"] if o.key.startswith(("unamb|", "Unambiguous|")) else ["C02", "C01", "C20"]
+        # how often GreedyFixed evaluates its operand decides which iteration's text the operand's groups hold (C03)
+        o.props = ["C02", "C01", "C20", "C08", "C11"] if o.key.startswith(("unamb|", "Unambiguous|")) else ["C02", "C01", "C20", "C03"]
     return out
 
 
